@@ -139,6 +139,41 @@ class Query:
 
 
 _UNKNOWN_STREAK = 0
+_CROSS_LEFT = 0
+
+
+def _cross_check(solver):
+    """second opinion on an `unsat`: the query as SMT-LIB text (exactly what z3 was asked, axioms included) to the cvc5 binary.
+    Budgeted per job (VERIF_CROSS, default 0 quick / 3 thorough). Returns 'unsat' / 'sat' / 'unknown' or None if not run."""
+    global _CROSS_LEFT
+    if _CROSS_LEFT <= 0:
+        return None
+    import shutil
+    import tempfile
+
+    exe = shutil.which("cvc5")
+    if not exe:
+        return None
+    _CROSS_LEFT -= 1
+    fn = None
+    try:
+        txt = solver.to_smt2()
+        fd, fn = tempfile.mkstemp(suffix=".smt2", prefix="vcross_")
+        with os.fdopen(fd, "w") as f:
+            f.write("(set-logic QF_UFNIRA)\n" + txt)
+        p = subprocess.run([exe, "--tlimit=15000", fn], capture_output=True, text=True, timeout=40)
+        outl = (p.stdout.strip().splitlines() or ["unknown"])[0].strip()
+        if "(error" in p.stdout or "(error" in p.stderr or outl not in ("sat", "unsat", "unknown"):
+            return "unknown"
+        return outl
+    except Exception:
+        return "unknown"
+    finally:
+        if fn:
+            try:
+                os.remove(fn)
+            except OSError:
+                pass
 
 
 def prove(oid, conds, goal, timeout_s, witness_vars=None, extra=(), instantiate=True, vacuity=True, replay=None, note=None, pairwise=True, tactic=None, deep_gen=1):
@@ -182,6 +217,13 @@ def prove(oid, conds, goal, timeout_s, witness_vars=None, extra=(), instantiate=
     if note:
         out["note"] = note
     if r == "unsat":
+        cx = _cross_check(s)
+        if cx is not None:
+            out["cross_cvc5"] = cx
+            if cx == "sat":
+                out["status"] = "unknown"
+                out["detail"] = "solvers disagree: z3 unsat, cvc5 sat on the same SMT-LIB text"
+                return out
         if vacuity:
             vr, vdt = Query.satisfiable(conds, min(timeout_s, 10), extra=extra, instantiate=instantiate)
             out["vacuity"] = vr
@@ -237,8 +279,9 @@ def _run_job(payload):
             f.write(f"{os.getpid()} start {name}\n")
     from . import sym
 
-    global _UNKNOWN_STREAK
+    global _UNKNOWN_STREAK, _CROSS_LEFT
     _UNKNOWN_STREAK = 0
+    _CROSS_LEFT = int(os.environ.get("VERIF_CROSS", "0") or 0)
     Query.count = 0
     Query.time = 0.0
     Query.axiom_names = set()
